@@ -66,6 +66,22 @@ fn request(u: &unimock::Unimock, which: OwnKind, x: u8, hold: &mut Vec<Box<dyn s
             hold.push(Box::new(t2));
             r
         }
+        OwnKind::DeepOpt => match u.own_deep_opt(x) {
+            Some(Err(t)) => {
+                let r = (t.id, t.intact());
+                hold.push(Box::new(t));
+                r
+            }
+            _ => (0, false),
+        },
+        OwnKind::DeepPoll => match u.own_deep_poll(x) {
+            std::task::Poll::Ready(Err(t)) => {
+                let r = (t.id, t.intact());
+                hold.push(Box::new(t));
+                r
+            }
+            _ => (0, false),
+        },
         OwnKind::Vec => {
             let v = u.own_vec(x);
             let shape_ok = v.len() == 3 && matches!(v[0], Ok(n) if *n == 1) && v[1].is_err() && matches!(v[2], Ok(n) if *n == 3);
@@ -133,6 +149,8 @@ fn kind_of(sp: &Special) -> Option<(OwnKind, u32, bool)> {
         Special::OwnTup1 { id } => Some((OwnKind::Tup1, *id, true)),
         Special::OwnVec { id } => Some((OwnKind::Vec, *id, true)),
         Special::OwnTup3 { id } => Some((OwnKind::Tup3, *id, true)),
+        Special::OwnDeepOpt { id } => Some((OwnKind::DeepOpt, *id, true)),
+        Special::OwnDeepPoll { id } => Some((OwnKind::DeepPoll, *id, true)),
         _ => None,
     }
 }
@@ -152,6 +170,8 @@ pub fn gen_c12(base_seed: u64, batch: &str, run: u64, rng: &mut Rng) -> Scenario
         Special::OwnTup1 { id: 106 },
         Special::OwnVec { id: 107 },
         Special::OwnTup3 { id: 108 },
+        Special::OwnDeepOpt { id: 110 },
+        Special::OwnDeepPoll { id: 111 },
     ];
     // OwnMulti through some_call needs an explicit multi-use quantifier
     if let Special::OwnMulti { quant, each_call, .. } = &mut pool[1] {
